@@ -8,7 +8,7 @@ pool opened is open; a stream whose establishment failed or was cancelled part-w
 from __future__ import annotations
 
 from ..prop import Layer, Prop
-from .c05 import ASSUME, RULE5, enum_cases, make_execute, make_sync_execute, random_cases, sync_cases
+from .c05 import ASSUME, RULE5, enum_cases, make_execute, make_sync_execute, random_cases, sync_cases, trio_cases
 
 PROP = Prop(
     "C06", level="fault_enumeration",
@@ -17,6 +17,7 @@ PROP = Prop(
         Layer("enumerated", cases=enum_cases, execute=make_execute("C06")),
         Layer("random", strategy=random_cases, execute=make_execute("C06"), budget={"quick": 1200, "thorough": 60000}),
         Layer("sync-faults", cases=sync_cases, execute=make_sync_execute("C06")),
+        Layer("trio", cases=trio_cases, execute=make_execute("C06")),
     ],
     assumptions=ASSUME + ["'open' always means the simulated pipe (closing any TLS layer closes the pipe, as closing an SSL stream closes the socket)"],
     explanation="The enumerated layer is exhaustive over fault positions x kinds and cancellation points x styles for the listed base scenarios.",
